@@ -203,16 +203,32 @@ def validScanBase (pdu : List UInt8) (localAddr : Addr) : Bool :=
       && le ((pdu.drop 8).take 6) == localAddr / 2            -- AdvA == own address
       && (localAddr % 2 == 1) == ((h &&& 0x80) != 0)          -- RxAdd == own address type
 
-/-- src: bindings/nordic/nrf52/include/bluetoe/nrf52.hpp is_valid_scan_request — MODELLED ONLY (the
-    ISR is not built on the host): `response_data_.buffer` present, `resolving_address_invalid()`
-    false, `pdu_gap` 0.  The scanner address handed to the scan filter takes its type from the
-    advertiser's *own* TxAdd bit (`scanner_addres_is_random`), not from the request. -/
+/-- src: bluetoe/bindings/nordic/nrf52/include/bluetoe/nrf52.hpp nrf52_radio_base::is_valid_scan_request
+    (the same text is in nrf51/nrf51.cpp), with fixes/adv-03: the scanner address handed to the scan
+    filter takes its type from TxAdd of the *request* (before: from the advertiser's own TxAdd).
+    `pdu` is the content of the receive buffer (36 octets; the ISR does not look at the received size),
+    `resolving_address_invalid()` false, `pdu_gap` 0; the caller checks `response_data_.buffer`
+    (`hasScanResponse`).  The length octet is compared with all 8 bits. -/
 def nrfValidScan (pdu : List UInt8) (localAddr : Addr) (w : WL) : Bool :=
   let h := header pdu
   (h >>> 8) == 12 && (h &&& 0x0f) == 3
     && le ((pdu.drop 8).take 6) == localAddr / 2
     && (localAddr % 2 == 1) == ((h &&& 0x80) != 0)
-    && BluetoeModel.WhiteList.scanIn w (addrAt pdu 0 (localAddr % 2 == 1))
+    && BluetoeModel.WhiteList.scanIn w (addrAt pdu 0 ((h &&& 0x40) != 0))
+
+/-- src: <type>::impl::get_scan_response_data: the advertising types that hand a scan response to the
+    radio (`response_data_.buffer != nullptr` in the ISR) -/
+def hasScanResponse : AdvType → Bool
+  | .undirected => true
+  | .scannable => true
+  | .directed => false
+  | .nonconn => false
+
+/-- the nRF52 radio ISR answers the PDU in the receive buffer with the scan response -/
+def nrfAnswers (s : St) (pdu : List UInt8) : Bool :=
+  match s.cfg.types[s.selected]? with
+  | some t => hasScanResponse t && nrfValidScan pdu s.localAddr s.wl
+  | none => false
 
 /-- src: <type>::impl::is_valid_connect_request -/
 def validConnectT (s : St) (pdu : List UInt8) : AdvType → Bool
